@@ -331,6 +331,25 @@ def parse_lint(r):
     return out
 
 
+BQ = re.compile(r'`([^`]*)`', re.S)
+
+
+def diag_struct(d):
+    """what a diagnostic NAMES, independent of its wording: the back-quoted fields of the issue
+    (2 = value and target of a constant assignment, 1 = the repeated identifier), its line, and the
+    back-quoted payload of each suggestion"""
+    fields = BQ.findall(d['issue'])
+    return {'line': d['line'], 'kind': 'boring' if len(fields) == 2 else 'missed' if len(fields) == 1 else 'other',
+            'fields': fields, 'payloads': [BQ.findall(s_)[-1] if BQ.findall(s_) else '' for s_ in d['suggestions']]}
+
+
+def lint_proj(r):
+    d = parse_lint(r)
+    if d is None:
+        return r.split(' x')[0]
+    return [diag_struct(x) for x in d]
+
+
 def lint_program(rng):
     """programs with assignments of every form at every depth whose right-hand sides are constants
     of every class and non-constants; returns (blocks, expectations) where expectations are
@@ -482,10 +501,8 @@ def c18(run):
     reqs = ['lint ' + hx(src) for _, src in cases]
 
     def proj(r):
-        d = parse_lint(r)
-        if d is None:
-            return r.split(' x')[0]
-        return [x for x in d if x['issue'].startswith('Assignment of literal')]
+        p_ = lint_proj(r)
+        return p_ if isinstance(p_, str) else [x for x in p_ if x['kind'] == 'boring']
     m, im = run.tie(reqs, proj=proj, functional=True, desc=lambda i: {'program': cases[i][1]})
     follow, fmeta = [], []
     for (prog, src), r in zip(cases, im):
@@ -495,21 +512,15 @@ def c18(run):
         if diags is None:
             run.fail({'program': src, 'answer': r[:200]}, 'linting a valid program fails: ' + r[:60])
             continue
-        boring = [d for d in diags if d['issue'].startswith('Assignment of literal')]
+        boring = [d for d in diags if diag_struct(d)['kind'] == 'boring']
         run.case(src, len(boring) >= 2, sample={'program': src[:300], 'diagnostics': boring[:3]} if rng.random() < 0.004 else None, ndiags=min(len(boring), 8))
         for d in boring:
-            mm = re.match(r'^Assignment of literal value `(.*)` into `(.*)` isn\'t very rock\'n\'roll$', d['issue'], re.S)
-            if not mm:
-                run.fail({'program': src, 'diagnostic': d}, 'malformed diagnostic')
-                continue
-            value, target = mm.group(1), mm.group(2)
-            lines = src.split('\n')
-            for s_ in d['suggestions']:
-                sm = SUGG.match(s_)
-                if not sm:
-                    run.fail({'program': src, 'diagnostic': d}, 'malformed suggestion')
+            ds = diag_struct(d)
+            value, target = ds['fields']
+            for payload in ds['payloads']:
+                if not payload:
+                    run.fail({'program': src, 'diagnostic': d}, 'a suggestion names no statement')
                     continue
-                payload = sm.group(1)
                 if target.startswith('<'):
                     continue
                 stmt = fill_stars(payload, rng)
@@ -557,9 +568,9 @@ def c18(run):
         diags = parse_lint(r)
         if diags is None:
             continue
-        boring = [d for d in diags if d['issue'].startswith('Assignment of literal')]
+        boring = [d for d in diags if diag_struct(d)['kind'] == 'boring']
         want = expected_boring(prog)
-        got = [(re.match(r'^Assignment of literal value `(.*)` into `(.*)` isn', d['issue'], re.S).group(2)) for d in boring]
+        got = [diag_struct(d)['fields'][1] for d in boring]
         if sorted(got) != sorted(t for t, c in want):
             run.fail({'program': src, 'reported_targets': got, 'expected_targets': [t for t, c in want]},
                      'diagnostics are not reported exactly for the constant, non-compound, non-poetic right-hand sides')
@@ -705,7 +716,7 @@ def c19(run):
         src = rock.Speller(rng, noise=0.02, comments=0.03).program(prog)
         cases.append((prog, src))
     reqs = ['lint ' + hx(src) for _, src in cases]
-    m, im = run.tie(reqs, functional=True, desc=lambda i: {'program': cases[i][1]})
+    m, im = run.tie(reqs, proj=lint_proj, functional=True, desc=lambda i: {'program': cases[i][1]})
     for (prog, src), r in zip(cases, im):
         if r is None:
             continue
@@ -719,10 +730,10 @@ def c19(run):
             run.fail({'program': src, 'lines': lines}, 'diagnostics are not ordered by line')
         # ties in pass order: on one line every constant-assignment diagnostic precedes every repeated-identifier one
         for ln in set(lines):
-            kinds = ['B' if d['issue'].startswith('Assignment') else 'M' for d in diags if d['line'] == ln]
+            kinds = ['B' if diag_struct(d)['kind'] == 'boring' else 'M' for d in diags if d['line'] == ln]
             if 'MB' in ''.join(kinds):
                 run.fail({'program': src, 'line': ln, 'kinds': kinds}, 'diagnostics on one line are not in pass order')
-        missed = [d for d in diags if d['issue'].startswith('Using identifier')]
+        missed = [d for d in diags if diag_struct(d)['kind'] == 'missed']
         ms = mentions(prog)
         want = []
         prev = None
@@ -731,7 +742,7 @@ def c19(run):
                 want.append(' '.join([nm[1]] if nm[0] == 'simple' else [nm[1], nm[2]] if nm[0] == 'common' else nm[1]))
             else:
                 prev = key
-        got = [re.match(r'^Using identifier `(.*)` more than once', d['issue']).group(1) for d in missed]
+        got = [diag_struct(d)['fields'][0] for d in missed]
         if sorted(got) != sorted(want):
             run.fail({'program': src, 'reported': got, 'expected': want},
                      'the repeated-identifier pass does not report exactly the mentions that repeat the previous mention')
@@ -780,9 +791,9 @@ def c20(run):
         stdin = rng.choice(['', 'one\ntwo\nthree\n', 'no newline', 'é\n\nΩ\n'])
         cases.append((src, stdin))
     reqs = [run_req(s, i) for s, i in cases]
-    m, im = run.tie(reqs, proj=lambda r: r, functional=True, desc=lambda i: {'program': cases[i][0], 'stdin': cases[i][1]})
+    m, im = run.tie(reqs, proj=proj_run, functional=True, desc=lambda i: {'program': cases[i][0], 'stdin': cases[i][1]})
     lreqs = ['lint ' + hx(s) for s, _ in cases]
-    lm, lim = run.tie(lreqs, functional=True, desc=lambda i: {'program': cases[i][0]})
+    lm, lim = run.tie(lreqs, proj=lint_proj, functional=True, desc=lambda i: {'program': cases[i][0]})
     with tempfile.TemporaryDirectory(dir=common.WORK) as td:
         for k, ((src, stdin), r, lr) in enumerate(zip(cases, im, lim)):
             if r is None:
